@@ -2,11 +2,13 @@ package eng
 
 import (
 	"fmt"
+	"reflect"
 	"runtime"
 	"sync/atomic"
 	"unsafe"
 
 	"github.com/mlange-42/ark/ecs"
+	"verifharness/typed"
 	u "verifharness/universe"
 )
 
@@ -643,4 +645,218 @@ func init() {
 		q.Close()
 		return out
 	}})
+}
+
+type resIfcA interface{ A() int }
+type resIfcB interface{ B() int }
+type resImplA struct{ v int }
+type resImplB struct{ v int }
+
+func (r resImplA) A() int { return r.v }
+func (r resImplB) B() int { return r.v }
+
+func init() {
+	Scenarios = append(Scenarios,
+		Scenario{Name: "S2-interface-typed-resources", Props: []string{"C18"}, Run: func() []string {
+			// resource types may be interface types: each is a type of its own, through the generic and the reflect-based lookup
+			var out []string
+			w := ecs.NewWorld(4)
+			ecs.AddResource(w, &u.P8{V: 1}) // a concrete one next to them
+			ida, idb := ecs.ResourceID[resIfcA](w), ecs.ResourceID[resIfcB](w)
+			if ida == idb {
+				out = append(out, fmt.Sprintf("two interface-typed resource types share ID %v", ida))
+			}
+			if ra := ecs.ResourceTypeID(w, reflect.TypeFor[resIfcA]()); ra != ida {
+				out = append(out, fmt.Sprintf("ResourceID[T] gives %v, ResourceTypeID(reflect.TypeFor[T]()) gives %v for the same interface type", ida, ra))
+			}
+			if tp, ok := ecs.ResourceType(w, idb); !ok || tp != reflect.TypeFor[resIfcB]() {
+				out = append(out, fmt.Sprintf("ResourceType(ID of an interface type) = %v, %v", tp, ok))
+			}
+			if again := ecs.ResourceID[resIfcA](w); again != ida {
+				out = append(out, fmt.Sprintf("interface resource type maps to %v, then %v", ida, again))
+			}
+			var a resIfcA = resImplA{v: 7}
+			var b resIfcB = resImplB{v: 9}
+			resA, resB := ecs.NewResource[resIfcA](w), ecs.NewResource[resIfcB](w)
+			if p := try(func() { resA.Add(&a) }); p != nil {
+				out = append(out, fmt.Sprintf("adding the first interface-typed resource panicked: %v", p))
+			}
+			if resB.Has() {
+				out = append(out, "after adding resource A, resource B is reported present")
+			}
+			if p := try(func() { resB.Add(&b) }); p != nil {
+				out = append(out, fmt.Sprintf("adding the second interface-typed resource panicked: %v", p))
+			}
+			if p := try(func() {
+				if g := ecs.GetResource[resIfcA](w); g == nil || (*g).A() != 7 {
+					out = append(out, "GetResource of the first interface-typed resource does not return its value")
+				}
+				if g := resB.Get(); g == nil || (*g).B() != 9 {
+					out = append(out, "Get of the second interface-typed resource does not return its value")
+				}
+			}); p != nil {
+				out = append(out, fmt.Sprintf("reading interface-typed resources panicked: %v", p))
+			}
+			if p := try(func() { resA.Remove() }); p != nil {
+				out = append(out, fmt.Sprintf("removing resource A panicked: %v", p))
+			}
+			if resA.Has() || !resB.Has() {
+				out = append(out, fmt.Sprintf("after removing resource A: A present=%v, B present=%v", resA.Has(), resB.Has()))
+			}
+			if n := len(ecs.ResourceIDs(w)); n != 3 {
+				out = append(out, fmt.Sprintf("ResourceIDs lists %d IDs for three registered resource types", n))
+			}
+			return out
+		}},
+		Scenario{Name: "B9-300-rejected-queries-while-64-are-open", Props: []string{"C07", "C13"}, Run: func() []string {
+			// a rejected 65th query leaves the lock bits alone, however often it is tried
+			var out []string
+			w := ecs.NewWorld(4)
+			m := ecs.NewMap1[u.P8](w)
+			m.NewEntity(&u.P8{V: 1})
+			f := ecs.NewFilter1[u.P8](w)
+			uf := ecs.NewUnsafeFilter(w, ecs.ComponentID[u.P8](w))
+			qs := make([]ecs.Query1[u.P8], 64)
+			for i := range qs {
+				qs[i] = f.Query()
+			}
+			accepted := 0
+			for k := 0; k < 300; k++ {
+				if k%2 == 0 {
+					if try(func() { q := f.Query(); q.Close() }) == nil {
+						accepted++
+					}
+				} else if try(func() { q := uf.Query(); q.Close() }) == nil {
+					accepted++
+				}
+			}
+			if accepted > 0 {
+				out = append(out, fmt.Sprintf("%d of 300 queries were accepted although 64 queries were open", accepted))
+			}
+			for i := range qs {
+				if !w.IsLocked() {
+					out = append(out, fmt.Sprintf("world unlocked although %d queries are still open", 64-i))
+					break
+				}
+				if p := try(func() {
+					n := 0
+					for qs[i].Next() {
+						n++
+					}
+					if n != 1 {
+						out = append(out, fmt.Sprintf("open query %d visits %d entities, want 1", i, n))
+					}
+				}); p != nil {
+					out = append(out, fmt.Sprintf("finishing open query %d panicked: %v", i, p))
+					break
+				}
+			}
+			if w.IsLocked() {
+				out = append(out, "world still locked after all queries finished")
+				return out
+			}
+			// the pool works as before: 64 at once, the 65th is rejected
+			for round := 0; round < 2; round++ {
+				for i := range qs {
+					qs[i] = f.Query()
+				}
+				if try(func() { f.Query() }) == nil {
+					out = append(out, "a 65th query is accepted after the episode")
+				}
+				for i := range qs {
+					if p := try(func() { qs[(i*7)%64].Close() }); p != nil {
+						out = append(out, fmt.Sprintf("closing a query after the episode panicked: %v", p))
+						return out
+					}
+				}
+				if w.IsLocked() {
+					out = append(out, "world locked after closing all queries")
+				}
+			}
+			return out
+		}},
+	)
+}
+
+func init() {
+	Scenarios = append(Scenarios, Scenario{Name: "G1-finished-queries-do-not-keep-column-memory-alive", Props: []string{"C11"}, Run: func() []string {
+		// For every typed tuple with a pointer-bearing component: 8 entities in a table of capacity 8, a query iterated to
+		// the end (and one closed early) that stays reachable, then the table grows (its old arrays are abandoned) and all
+		// entities are removed. Every pointee must become collectable although the finished query objects are still
+		// referenced - they hand out nothing any more and must not pin the abandoned arrays.
+		var out []string
+		saved := u.BoxHook
+		defer func() { u.BoxHook = saved }()
+		var keep []typed.TQuery
+		for t := range typed.Tuples {
+			tp := &typed.Tuples[t]
+			hasPtr := false
+			for _, c := range tp.Comps {
+				if u.Types[c].HasPtr {
+					hasPtr = true
+				}
+			}
+			if tp.NewFilter == nil || !hasPtr {
+				continue
+			}
+			var alloc, final atomic.Int64
+			u.BoxHook = func(b *u.Box) {
+				alloc.Add(1)
+				runtime.SetFinalizer(b, func(*u.Box) { final.Add(1) })
+			}
+			w := ecs.NewWorld(8, 8)
+			tm := tp.NewMap(w, false)
+			var rel []ecs.Relation
+			for j, c := range tp.Comps {
+				if u.Types[c].IsRel {
+					rel = append(rel, ecs.RelIdx(j, ecs.Entity{}))
+				}
+			}
+			vals := make([]int64, len(tp.Comps))
+			var es []ecs.Entity
+			for i := 0; i < 8; i++ {
+				for j := range vals {
+					vals[j] = int64(1000*(i+1) + j)
+				}
+				es = append(es, tm.NewEntity(vals, rel))
+			}
+			f := tp.NewFilter(w, false)
+			q1 := f.Query(nil)
+			for q1.Next() {
+			}
+			q2 := f.Query(nil)
+			q2.Next()
+			q2.Close()
+			keep = append(keep, q1, q2)
+			for i := 0; i < 9; i++ { // grows the table: the arrays the queries have seen are abandoned
+				for j := range vals {
+					vals[j] = int64(100000*(i+1) + j)
+				}
+				es = append(es, tm.NewEntity(vals, rel))
+			}
+			for _, e := range es {
+				w.RemoveEntity(e)
+			}
+			u.BoxHook = nil
+			n := alloc.Load()
+			for round := 0; round < 100 && final.Load() < n; round++ {
+				runtime.GC()
+				runtime.Gosched()
+			}
+			if got := final.Load(); got < n {
+				out = append(out, fmt.Sprintf("tuple %d %v (Query%d): %d of %d pointees are still reachable after all entities were removed, while two finished queries of the filter are referenced", t, tupleNames(tp.Comps), len(tp.Comps), n-got, n))
+			}
+			runtime.KeepAlive(w)
+		}
+		runtime.KeepAlive(keep)
+		return out
+	}})
+}
+
+func tupleNames(cs []int) []string {
+	var r []string
+	for _, c := range cs {
+		r = append(r, u.Types[c].Name)
+	}
+	return r
 }
